@@ -129,6 +129,8 @@ type Kernel struct {
 	siteCount   map[string]int
 	FaultsFired map[string]int
 	Stats       map[string]int
+	seed        uint64
+	drawCount   map[string]int
 	faulted     map[*File]bool
 	faultedFd   map[int]map[int]bool // fd -> generation -> a fault fired on it
 
@@ -166,6 +168,7 @@ func New(seed uint64, step func() int, taskName func() string) *Kernel {
 		fds: map[int]*fdEntry{}, hist: map[int]*fdHistory{}, fdBase: 3, rng: runner.NewRand(seed ^ 0x6b65726e),
 		step: step, taskName: taskName,
 		listeners: map[string][]*File{}, udpBound: map[string][]*File{}, unixPaths: map[string]bool{},
+		seed: seed, drawCount: map[string]int{},
 		faulted: map[*File]bool{}, faultedFd: map[int]map[int]bool{},
 		Uses: map[int][]Use{}, siteCount: map[string]int{}, FaultsFired: map[string]int{}, Stats: map[string]int{},
 		SndBuf: 64 << 10, RcvBuf: 64 << 10,
@@ -374,8 +377,26 @@ func (k *Kernel) fault(site string, f *File) (Errno, *Fault) {
 	return 0, nil
 }
 
-// Rand exposes the kernel's seeded PRNG to the world (delivery sizes etc.).
+// Rand exposes the kernel's seeded PRNG to the world.
 func (k *Kernel) Rand() *runner.Rand { return k.rng }
+
+// Draw returns a number in [0,n) that depends only on the run's seed, the key
+// and how often that key has been drawn before. Choices made this way (how
+// many segments one arrival carries, which member of a reuseport group gets a
+// connection, the order of an epoll batch, whether a canary grabs a number)
+// stay the same when an unrelated part of the plan is removed by the shrinker.
+func (k *Kernel) Draw(key string, n int) int {
+	if n <= 1 {
+		return 0
+	}
+	c := k.drawCount[key]
+	k.drawCount[key] = c + 1
+	h := k.seed
+	for i := 0; i < len(key); i++ {
+		h = (h ^ uint64(key[i])) * 1099511628211
+	}
+	return int(runner.SplitMix(h^uint64(c)*0x9e3779b97f4a7c15) % uint64(n))
+}
 
 // FdGen returns the generation counter of a descriptor number.
 func (k *Kernel) FdGen(fd int) int {
@@ -415,7 +436,7 @@ func (f *File) wake() { f.wakeSeq++ }
 
 // maybeCanary is called after the framework closed a descriptor number.
 func (k *Kernel) maybeCanary(fd int) {
-	if k.CanaryGrab > 0 && k.rng.Intn(100) < k.CanaryGrab {
+	if k.CanaryGrab > 0 && k.Draw(fmt.Sprintf("canary:%d", fd), 100) < k.CanaryGrab {
 		f := k.newFile(kCanary, OwnCanary)
 		k.installAt(fd, f, OwnCanary)
 		k.canaries = append(k.canaries, fd)
